@@ -247,8 +247,25 @@ def find_container(page, path):
 
 # --------------------------------------------------------------------------- running the implementation
 
+class AnalysisTimeout(Exception):
+    """The implementation did not finish one page within IMPL_TIMEOUT_S (termination is part of C08)."""
+
+
+IMPL_TIMEOUT_S = 10
+
+
+def _alarm(signum, frame):
+    raise AnalysisTimeout("layout analysis still running after %d s" % IMPL_TIMEOUT_S)
+
+
 def run_impl(case, mode: str = "frac"):
-    """Returns (page, None) or (None, exception)."""
+    """Returns (page, None) or (None, exception).  A watchdog bounds the time of one analysis."""
+    import signal
+    import threading
+    use_alarm = threading.current_thread() is threading.main_thread()
+    if use_alarm:
+        prev = signal.signal(signal.SIGALRM, _alarm)
+        signal.setitimer(signal.ITIMER_REAL, IMPL_TIMEOUT_S)
     try:
         page = build_page(case, mode)
         la = make_laparams(case["la"], mode)
@@ -256,6 +273,10 @@ def run_impl(case, mode: str = "frac"):
         return page, None
     except Exception as e:  # noqa: BLE001
         return None, e
+    finally:
+        if use_alarm:
+            signal.setitimer(signal.ITIMER_REAL, 0)
+            signal.signal(signal.SIGALRM, prev)
 
 
 # --------------------------------------------------------------------------- C08 oracle on the implementation
